@@ -61,21 +61,24 @@ theorem zero_pieces_no_plans (B maxShare : Int) (aff : Bool) (h : Host) (pieces 
     hostPlans B maxShare aff h pieces = .ok [] := by
   unfold hostPlans; simp [hp]
 
+/-- `Validate` returns a request or an error value -/
+theorem validate_no_crash (raw : RawReq) : (∃ w, raw.validate = .ok w) ∨ (∃ e, raw.validate = .err e) := by
+  unfold RawReq.validate
+  split
+  · right; exact ⟨_, rfl⟩
+  · split
+    · right; exact ⟨_, rfl⟩
+    · split
+      · right; exact ⟨_, rfl⟩
+      · left; exact ⟨_, rfl⟩
+
 /-- **calculateDeploy_no_crash**: `CalculateDeploy` (count ≥ 0) ends with a result or an error value -/
 theorem calculateDeploy_no_crash (info : NodeInfo) (B maxShare count : Int) (raw : RawReq) (order : List String)
     (hB : 1 ≤ B) (hwf : WF info) (hord : order.Nodup) (hc : 0 ≤ count) :
     (∃ ws, calculateDeploy info B maxShare count raw order = .ok ws) ∨
     (∃ e, calculateDeploy info B maxShare count raw order = .err e) := by
   unfold calculateDeploy
-  have hv : (∃ w, raw.validate = .ok w) ∨ (∃ e, raw.validate = .err e) := by
-    unfold RawReq.validate
-    split
-    · right; exact ⟨_, rfl⟩
-    · split
-      · right; exact ⟨_, rfl⟩
-      · split
-        · right; exact ⟨_, rfl⟩
-        · left; exact ⟨_, rfl⟩
+  have hv := validate_no_crash raw
   rcases hv with ⟨w, hw⟩ | ⟨e, he⟩
   · rw [hw]
     simp only []
@@ -93,6 +96,62 @@ theorem calculateDeploy_no_crash (info : NodeInfo) (B maxShare count : Int) (raw
       · split
         · right; exact ⟨_, rfl⟩
         · left; exact ⟨_, rfl⟩
+  · rw [he]; right; exact ⟨_, rfl⟩
+
+theorem allocByMemory_no_crash (info : NodeInfo) (count : Int) (w : RawReq) :
+    (∃ ws, allocByMemory info count w = .ok ws) ∨ (∃ e, allocByMemory info count w = .err e) := by
+  unfold allocByMemory
+  split
+  · right; exact ⟨_, rfl⟩
+  · split
+    · right; exact ⟨_, rfl⟩
+    · left; exact ⟨_, rfl⟩
+
+/-- **calculateRealloc_no_crash**: `CalculateRealloc` (any origin workload, any request/limit/memory
+    deltas, keep-bind or not) ends with a result or an error value -/
+theorem calculateRealloc_no_crash (info : NodeInfo) (B maxShare : Int) (origin : Workload) (raw : RawReq) (order : List String)
+    (hB : 1 ≤ B) (hwf : WF info) (hord : order.Nodup) :
+    (∃ w, calculateRealloc info B maxShare origin raw order = .ok w) ∨
+    (∃ e, calculateRealloc info B maxShare origin raw order = .err e) := by
+  unfold calculateRealloc
+  split
+  · right; exact ⟨_, rfl⟩
+  · simp only []
+    generalize (if raw.keepBind = true then !origin.cpuMap.isEmpty else raw.bind) = bind
+    generalize ({ bind := bind, cpuReq := raw.cpuReq + origin.cpuReq, cpuLim := raw.cpuLim + origin.cpuLim, memReq := raw.memReq + origin.memReq, memLim := raw.memLim + origin.memLim } : RawReq) = newReq
+    rcases validate_no_crash newReq with ⟨w, hw⟩ | ⟨e, he⟩
+    · rw [hw]
+      simp only []
+      split
+      · obtain ⟨ps, hps⟩ := getCPUPlans_total
+          { info with use := info.use.sub { cpuMap := origin.cpuMap, mem := origin.memReq, numaMem := origin.numaMem } }
+          origin.cpuMap B maxShare w.toReq order hB hwf hord
+        rw [hps]
+        cases ps with
+        | nil => right; exact ⟨_, rfl⟩
+        | cons p rest => left; exact ⟨_, rfl⟩
+      · rcases allocByMemory_no_crash
+          { info with use := info.use.sub { cpuMap := origin.cpuMap, mem := origin.memReq, numaMem := origin.numaMem } } 1 w with ⟨v, hv⟩ | ⟨e, he⟩
+        · rw [hv]; left; exact ⟨_, rfl⟩
+        · rw [he]; right; exact ⟨_, rfl⟩
+    · rw [he]; right; exact ⟨_, rfl⟩
+
+/-- **nodeDeployCapacity_no_crash**: `doGetNodeDeployCapacity` behind `GetNodesDeployCapacity` ends with
+    a capacity or (invalid request) an error value -/
+theorem nodeDeployCapacity_no_crash (info : NodeInfo) (B maxShare : Int) (raw : RawReq) (order : List String)
+    (hB : 1 ≤ B) (hwf : WF info) (hord : order.Nodup) :
+    (∃ c, nodeDeployCapacity info B maxShare raw order = .ok c) ∨
+    (∃ e, nodeDeployCapacity info B maxShare raw order = .err e) := by
+  unfold nodeDeployCapacity
+  rcases validate_no_crash raw with ⟨w, hw⟩ | ⟨e, he⟩
+  · rw [hw]
+    simp only []
+    split
+    · split
+      · left; exact ⟨_, rfl⟩
+      · split <;> (left; exact ⟨_, rfl⟩)
+    · obtain ⟨ps, hps⟩ := getCPUPlans_total info [] B maxShare w.toReq order hB hwf hord
+      rw [hps]; left; exact ⟨_, rfl⟩
   · rw [he]; right; exact ⟨_, rfl⟩
 
 example : getCPUPlans { cap := { cpuMap := [("0",100),("1",100)], mem := 1000 }, use := {} } [("0",100)] 100 (-1)
